@@ -11,7 +11,7 @@ from __future__ import annotations
 from typing import Any, Dict, List
 
 from .. import core, tlc
-from ..identity_common import identities, render, summary
+from ..identity_common import identities, identities_inspect_way, render, summary
 from ..pool import pmap
 
 
@@ -38,11 +38,83 @@ def check_chunk(es: List[Dict[str, Any]]):
             out["viol"].append((f"config-id-blind:{act}", f"{act}: config_id unchanged\n--- from\n{ta}--- to\n{tb}", {"edge": e}))
         if sorted(a["nodes"]) == sorted(b["nodes"]) and act not in ("SwapNodes",):
             out["viol"].append((f"node-ids-blind:{act}", f"{act}: no node uuid / node semantic id changed\n--- from\n{ta}--- to\n{tb}", {"edge": e}))
+        if out["n"] % 3 == 0 or act in ("SetParam", "SetSubParam"):
+            # the same question on the path `semantiva inspect` takes (inspect the node list, then build the payload from the
+            # same configuration object and that inspection)
+            a2, b2 = summary(identities_inspect_way(ta)), summary(identities_inspect_way(tb))
+            if a2["semantic_id"] == b2["semantic_id"] or a2["config_id"] == b2["config_id"]:
+                out["viol"].append((f"semantic-id-blind:inspect-way:{act}", f"{act}: semantic_id / config_id unchanged when the payload is built the way `semantiva inspect` "
+                                    f"builds it\n--- from\n{ta}--- to\n{tb}", {"edge": e}))
+            if sorted(a2["nodes"]) == sorted(b2["nodes"]) and act not in ("SwapNodes",):
+                out["viol"].append((f"node-ids-blind:inspect-way:{act}", f"{act}: no node uuid / node semantic id changed (inspect way)\n--- from\n{ta}--- to\n{tb}", {"edge": e}))
+            if a2 != a:
+                out["viol"].append((f"inspect-way-differs:{act}", f"the identities of one configuration differ between build_inspection_payload(config) and the "
+                                    f"inspect-then-payload way\n{ta}", {"edge": e}))
         for side, s in (("from", a), ("to", b)):
             uu = [u for u, _ in s["nodes"]]
             if len(set(uu)) != len(uu):
                 out["viol"].append(("uuid-collision", f"two nodes of one pipeline share a UUID ({side} side of {act})\n{ta if side == 'from' else tb}", {"edge": e}))
     return out
+
+
+def api_and_list_checks(run) -> None:
+    """Two more places where a definition enters: (1) a sweep class generated through the Python API
+    (ParametricSweepFactory.create) and given as `processor: <class>` without a derive block -- sweeps that differ in one
+    field of their definition are different nodes; (2) LIST-valued parameters at depth 1 and 2 -- changing any single element,
+    also one in the middle of a long list, changes the identities.  (2) is repeated with every SEMANTIVA_* environment
+    variable that canonicalisation consults (observed: vharness.envprobe) set to a few values."""
+    import verif_ext
+    from semantiva.data_processors.parametric_sweep_factory import ParametricSweepFactory, RangeSpec, SequenceSpec
+    from semantiva.examples.test_utils import FloatDataCollection, FloatValueDataSource, FloatValueDataSourceWithDefault
+    from semantiva.inspection import build_inspection_payload
+    from .. import envprobe
+
+    def ids(nodes):
+        return summary(build_inspection_payload({"pipeline": {"nodes": nodes}}))
+
+    def mk(element=FloatValueDataSource, vars_=None, expr="2 * t", mode="combinatorial", broadcast=False):
+        return ParametricSweepFactory.create(element=element, element_kind="DataSource", collection_output=FloatDataCollection,
+                                             vars=vars_ or {"t": SequenceSpec([1.0, 2.0, 3.0])}, parametric_expressions={"value": expr},
+                                             mode=mode, broadcast=broadcast)
+    base = ids([{"processor": mk()}])
+    variants = {"expression": mk(expr="3 * t"), "values": mk(vars_={"t": SequenceSpec([1.0, 2.0, 4.0])}), "range": mk(vars_={"t": RangeSpec(1.0, 3.0, steps=3)}),
+                "element": mk(element=FloatValueDataSourceWithDefault), "mode": mk(vars_={"t": SequenceSpec([1.0, 2.0, 3.0]), "u": SequenceSpec([1.0, 2.0, 3.0])}, mode="by_position"),
+                "mode-comb": mk(vars_={"t": SequenceSpec([1.0, 2.0, 3.0]), "u": SequenceSpec([1.0, 2.0, 3.0])})}
+    seen = {"base": base}
+    for name, cls in variants.items():
+        run.evaluations += 1
+        got = ids([{"processor": cls}])
+        for other, o in seen.items():
+            if other == "base" or (name, other) == ("mode-comb", "mode"):
+                if got["semantic_id"] == o["semantic_id"] or got["config_id"] == o["config_id"] or sorted(got["nodes"]) == sorted(o["nodes"]):
+                    run.violation(f"semantic-id-blind:api-sweep-class:{name}", f"two sweep classes built with ParametricSweepFactory.create that differ in their {name} "
+                                  f"({other} vs {name}) and are given as `processor: <class>` share semantic id / config id / node ids: {got} vs {o}", {"api": name})
+        seen[name] = got
+
+    def list_nodes(xs, deep):
+        params = {"gain": 2.0, "opts": {"alpha": 1.0, "weights": list(xs)}} if deep else {"gain": 2.0, "weights": list(xs)}
+        return [{"processor": "FloatValueDataSource", "parameters": {"value": 1.0}}, {"processor": "VNestedOperation", "parameters": params}]
+
+    def list_check(tag):
+        for deep in (False, True):
+            for n in (3, 9, 40):
+                xs = [float(i) for i in range(n)]
+                ref = ids(list_nodes(xs, deep))
+                for pos in sorted({0, 1, n // 2, n - 2, n - 1}):
+                    run.evaluations += 1
+                    ys = list(xs)
+                    ys[pos] += 0.5
+                    got = ids(list_nodes(ys, deep))
+                    if got["semantic_id"] == ref["semantic_id"] or got["config_id"] == ref["config_id"] or sorted(got["nodes"]) == sorted(ref["nodes"]):
+                        run.violation(f"semantic-id-blind:list-element{tag}", f"changing element {pos} of a {n}-element list parameter (depth {2 if deep else 1}) leaves "
+                                      f"semantic id / config id / node ids unchanged{tag and ' with ' + tag}", {"pos": pos, "n": n, "deep": deep})
+                        return
+    list_check("")
+    names = envprobe.discover(lambda: ids(list_nodes([1.0, 2.0, 3.0], True)))
+    run.extra["environment_variables_consulted"] = names
+    for assign in envprobe.settings(names):
+        with envprobe.with_env(assign):
+            list_check(f":{next(iter(assign))}={next(iter(assign.values()))}")
 
 
 def replay_one(payload):
@@ -81,6 +153,7 @@ def check(tier: str) -> int:
     if not need <= set(acts):
         raise core.MachineryError(f"vacuity: semantic actions never exercised: {sorted(need - set(acts))}")
     run.extra["edges_by_action"] = acts
+    api_and_list_checks(run)
     run.traces_validated = run.evaluations
     run.nontrivial = sum(v for k, v in acts.items() if k.startswith("SetSweep") or k == "SetSubParam")
     run.sample({"edge": es[0]["action"], "to": render(es[0]["to"])})
